@@ -188,7 +188,7 @@ def op_src(op, with_terminal=True, upto=None):
 
 
 def n_cases(tier):
-    return 700 if tier == "quick" else 12000
+    return 700 if tier == "quick" else 8000
 
 
 def gen_case(seed, i, tier="quick"):
